@@ -49,7 +49,7 @@ def ev_class(ev):
         return 'T_' + ev['t'].upper()
     return {'boot': 'BOOT', 'connOk': 'CONN_OK', 'connRefused': 'CONN_FAIL', 'tcpTimeout': 'CONN_FAIL',
             'connLost': 'CONN_LOST', 'tick': 'TICK', 'stop': 'STOP', 'start': 'START', 'rest': 'REST',
-            'data': ev.get('cls', 'DATA'), 'firedue': 'T_DUE'}[k]
+            'data': ev.get('cls', 'DATA'), 'firedue': 'T_DUE', 'coop': 'COOP'}[k]
 
 
 class Recorder(object):
@@ -116,6 +116,8 @@ class Recorder(object):
         o = w.observe()
         if ev['k'] == 'rest':
             extra = dict(extra or {}, statsame=(prestat == o['stat']))
+        if ev['k'] == 'firedue' and w.last_fired:
+            extra = dict(extra or {}, cls='T_' + w.last_fired.upper(), t=w.last_fired)
         post = self.summ(o)
         for d in o['out']:
             b = BUCKET.get({'OPEN': 1, 'UPDATE': 2, 'NOTIFICATION': 3, 'KEEPALIVE': 4, 'RR': 5}.get(d['type'], 0))
@@ -215,7 +217,7 @@ def compare_out(mout, mrep, o, lmap_pre_post):
     return d
 
 
-def replay_walk(g, walk, tid, wcfg, cfgline, tail=0):
+def replay_walk(g, walk, tid, wcfg, cfgline, tail=0, coop=False):
     """Replay one walk.  Returns (trace lines, drift record or None, number of steps, covered edge list)."""
     w = World(wcfg)
     rec = Recorder(w, tid, cfgline)
@@ -260,9 +262,47 @@ def replay_walk(g, walk, tid, wcfg, cfgline, tail=0):
                     diff.append(('closes', mcl, o['closes']))
                 if diff:
                     drift = {'tid': tid, 'step': steps, 'ev': ev, 'diff': diff[:4], 'st': g.states[u]['st']}
+    if coop and rec.lines and w.p.fsm.allow_automatic_start and W.connectors:
+        coop_continue(w, rec, cfgline.get('idle', 2), cfgline.get('hold', 60))
     if drift is not None:
         drift['events'] = [{k: ln.get(k) for k in ('k', 'c', 'm', 'h', 't')} for ln in rec.lines if ln.get('k') != 'cfg']
     return rec.lines, drift, steps, covered
+
+
+def coop_continue(w, rec, idle_ticks, hold_s, slack=1):
+    """C02: from whatever state the adversarial prefix left, behave as a cooperative environment and peer (mirror of
+    spec/Coop.tla, CoopStep) for one idle-hold period + slack + three hold times of virtual time."""
+    rec.step({'k': 'coop', 'c': 0}, 0)
+    t0 = w.nticks
+    watch = int(3 * max(hold_s, 30) / w.tick) + 1
+    kad = False
+    guard = 0
+    while w.nticks - t0 <= idle_ticks + slack + watch and guard < 4000:
+        guard += 1
+        f = w.p.fsm
+        conns = [(i, W.connectors[i - 1]) for i in w.alive]
+        closing = [i for i, k in conns if k.state == 'connected' and k.transport.disconnecting]
+        connecting = [i for i, k in conns if k.state == 'connecting']
+        st = rec.pre['st']
+        tr = rec.pre['tr']
+        trk = W.connectors[tr - 1] if tr and tr > 0 else None
+        tropen = trk is not None and trk.state == 'connected' and not trk.transport.disconnecting
+        if w.due_calls():
+            rec.step({'k': 'firedue', 'c': 0}, 0)
+        elif closing:
+            rec.step({'k': 'connLost', 'c': closing[0]}, closing[0])
+        elif connecting:
+            rec.step({'k': 'connOk', 'c': connecting[0]}, connecting[0])
+        elif tropen and st == 'OPENSENT':
+            rec.step({'k': 'msg', 'c': tr, 'm': 'OPEN', 'h': 90}, tr)
+        elif tropen and st in ('OPENCONFIRM', 'ESTABLISHED') and not kad:
+            rec.step({'k': 'msg', 'c': tr, 'm': 'KA'}, tr)
+            kad = True
+        else:
+            if any(k.state == 'connecting' and k.deadline <= W.now + 1e-6 for i, k in conns):
+                break
+            rec.step({'k': 'tick', 'c': 0}, 0)
+            kad = False
 
 
 def enabled_events(w):
